@@ -10,7 +10,8 @@ from harness.common import Check
 from harness.procworker import model_by_id, probe
 from translate import libio as t_libio, wrapper as t_wr, gatecode as t_gc
 
-THEOREMS = ["C16_disciplines", "C16_invariant", "C16_no_crash", "C16_inplace_refuted", "C16_bypath_refuted", "C16_reentrant_structure"]
+THEOREMS = ["C16_disciplines", "C16_invariant", "C16_no_crash", "C16_inplace_refuted", "C16_bypath_refuted", "C16_reentrant_structure",
+            "C16_compile_requires_model"]
 TRUSTED = [
     "Coq 8.16.1 kernel/coqc; theorems closed under the global context",
     "partial: the process model Model/Proc.v (files as inodes, in-place overwrite modifies mapped pages, dlopen caches by path name, a "
@@ -170,6 +171,41 @@ def run(ck: Check):
         if st["wrong"]:
             ck.disagree("concurrent calls return results that differ from the sequential ones", dict(case, wrong=st["wrong"], first=st["first"]),
                         signature={"what": "threads-wrong", "same_handle": not job["mix"]})
+    # compile() on a handle returned by load(): refused, or at least harmless - the handle keeps computing its model and the
+    # library at the path is still the saved model (F43)
+    rjobs = [{"kind_of_job": "recompile-loaded", "W": W, "same_path": sp, "kind": kind,
+              "path": os.path.join(ck.scratch, f"rc_{W}_{int(sp)}_{kind}.so")}
+             for W in (8, 64) for sp in (True, False) for kind in ("dense", "dense-nogs")]
+    for job, res in zip(rjobs, subproc.run_jobs(ck.scratch, rjobs, workers=4, timeout=300)):
+        case = {"kind": "compile-on-loaded-handle", "W": job["W"], "same_path": job["same_path"], "model": job["kind"]}
+        ck.case(case, nontrivial=True, kind="recompile-loaded")
+        if not res["done"] or not res["steps"]:
+            ck.disagree("compile() on a loaded handle killed the process", dict(case, stderr=res["stderr"][-300:]),
+                        signature={"what": "recompile-loaded", "kind": "crash"})
+            continue
+        st = res["steps"][0]
+        bad = [nm for nm in ("after", "reloaded") if st[nm] != st["before"]]
+        if st.get("second") is not None and st["second"] != st["before"]:
+            bad.append("second")
+        if bad:
+            ck.disagree("compile() on a handle returned by load() was accepted and changed what the handle / the saved library computes",
+                        dict(case, accepted=st["accepted"], differs=bad, before=st["before"][:2], after=st["after"][:2]),
+                        signature={"what": "recompile-loaded", "kind": "wrong"})
+    # several threads saving to one path: every compile succeeds, every handle computes its own model, the path holds one of them (F44)
+    cjobs = [{"kind_of_job": "concurrent-save", "W": 64, "threads": t, "rounds": 6 if ck.tier == "quick" else 40,
+              "path": os.path.join(ck.scratch, f"cs_{t}.so")} for t in ((8,) if ck.tier == "quick" else (4, 8, 16))]
+    for job, res in zip(cjobs, subproc.run_jobs(ck.scratch, cjobs, workers=2, timeout=900)):
+        case = {"kind": "concurrent-save", "threads": job["threads"], "rounds": job["rounds"]}
+        ck.case(case, nontrivial=True, kind="concurrent-save")
+        if not res["done"] or not res["steps"]:
+            ck.disagree("concurrent compile(save_lib_path=p) killed the process", dict(case, stderr=res["stderr"][-300:]),
+                        signature={"what": "concurrent-save", "kind": "crash"})
+            continue
+        st = res["steps"][0]
+        ck.count("concurrent_save_rounds", st["rounds"])
+        if st["errors"]:
+            ck.disagree("concurrent compile(save_lib_path=p) to one path failed although each compilation is valid",
+                        dict(case, errors=st["errors"]), signature={"what": "concurrent-save", "kind": "error"})
     # no storage shared between calls in the emitted text
     net = compiled.build(model_by_id(0), 32)
     text = net.get_c_code()
